@@ -91,6 +91,28 @@ def cmd_import(argv):
         shutil.rmtree(pat, ignore_errors=True)
 
 
+def keep_corpus(d, pid, name):
+    """the shrunk failing case of a caught change joins the seconds-long replay corpus (if it passes on the unchanged tree)"""
+    import glob
+    found = sorted(glob.glob(os.path.join(d, '.found', f'{pid}-*.json')))
+    if not found:
+        return
+    dst = os.path.join(HERE, 'replays', 'corpus')
+    os.makedirs(dst, exist_ok=True)
+    seen = set()
+    for f in found:
+        r = json.load(open(f))
+        if r['check'] in seen:
+            continue
+        seen.add(r['check'])
+        out = os.path.join(dst, f'{pid}-{r["check"]}-from-{name}.json')
+        r['origin'] = f'shrunk case with which sub-check {r["check"]} exposed seeded change {name}'
+        json.dump(r, open(out, 'w'), indent=1)
+        ok = run(f'VERIF_EVIDENCE_DIR={d}/.ev {HERE}/check {pid} --replay {out}', cwd=HERE)
+        if ok.returncode != 0:
+            os.remove(out)
+
+
 def cmd_run(argv):
     tier = argv[argv.index('--tier') + 1] if '--tier' in argv else 'quick'
     props = argv[argv.index('--props') + 1].split(',') if '--props' in argv else None
@@ -115,6 +137,8 @@ def cmd_run(argv):
             for pid in props or [meta['breaks_property']] + meta.get('also_check', []):
                 rc, m, err = check(d, pid, tier)
                 verdict = 'CAUGHT' if rc == 1 else f'MISSED(exit {rc})'
+                if rc == 1:
+                    keep_corpus(d, pid, name)
                 meta['detected_by'][f'{pid}:{tier}'] = {'verdict': verdict, 'message': (m[0][:300] if m else '')}
                 line += f' {pid}={verdict}' + (f' ({m[0][:140]})' if rc == 1 and m else '') + (f' ERR {err}' if rc == 2 else '')
             print(line, flush=True)
